@@ -1679,7 +1679,7 @@ theorem C03_keypath (h : HashCtx) (tc : TapCtx) (cx : Ctx) (sc : Spec.SpendCtx) 
   rw [keypath_eval _ rfl rfl prog sg hp]
   show specOk ((match (sc.oracleFor .TAPROOT (if hasAnnexS inp.witness wlast then some wlast else none) none).schnorr sg prog .TAPROOT 0xFFFFFFFF with
       | .ok () => .ok { ({ stack := [[1]] } : Spec.St) with codeFrom := 0x20 :: (prog ++ [0xac]) }
-      | .error _ => .error .UNKNOWN_ERROR) >>= finalChecks flags .TAPROOT) = true ↔ _
+      | .error x => .error x) >>= finalChecks flags .TAPROOT) = true ↔ _
   cases (sc.oracleFor .TAPROOT (if hasAnnexS inp.witness wlast then some wlast else none) none).schnorr sg prog .TAPROOT 0xFFFFFFFF with
   | error e => simp [specOk]
   | ok u =>
